@@ -40,6 +40,9 @@ type Val struct {
 }
 
 func (v *Val) String() string {
+	if v == nil {
+		return "<absent>"
+	}
 	switch v.Kind {
 	case VInt:
 		return fmt.Sprint(v.I)
